@@ -273,6 +273,19 @@ def load_cases(ctx):
             out.append(item)
             out.append([0x82] + item + [0x01])
             out.append([0x5F if mt == 2 else 0x7F] + item + item + [0xFF])
+    # element / pair / chunk counts around the argument-width boundaries and powers of two
+    for n in (22, 23, 24, 25, 31, 32, 33, 63, 64, 65, 127, 128, 129, 255, 256, 257, 1023, 1024, 1025):
+        w = 0 if n < 24 else 1 if n < 256 else 2
+        els = []
+        for i in range(n):
+            els += [i & 0x17] if i % 5 else [0x18, 0x18 + (i & 0x7F)]
+        out.append(head(4, n, w) + els)
+        out.append([0x9F] + els + [0xFF])
+        out.append(head(5, n, w) + [b for i in range(n) for b in (0x01, 0x20 | (i & 0x17))])
+        out.append([0xBF] + [b for i in range(n) for b in (0x61, 0x61 + i % 26, 0xF4 + i % 4)] + [0xFF])
+        out.append([0x5F] + [0x41, 0x30] * n + [0xFF])
+        out.append([0x7F] + [0x62, 0xC3, 0xA9] * n + [0xFF])
+        out.append(head(4, n, w) + els[:-1])          # one element short
     # declared sizes near the allocator cap and near 2^64 (size arithmetic, refusals)
     for mt in (2, 3, 4, 5):
         for v in (2 ** 16, 2 ** 17 - 1, 2 ** 17, 2 ** 20, 2 ** 32 - 1, 2 ** 32, 2 ** 59, 2 ** 60, 2 ** 61, 2 ** 63, 2 ** 64 - 9, 2 ** 64 - 1):
